@@ -42,6 +42,9 @@ type c17WDir struct {
 	Parent *int       `json:"parent,omitempty"`
 	DotEnv *c17WEnv   `json:"dotenv,omitempty"`
 	Files  []c17WFile `json:"files"`
+	// Link: the directory is reached through a symbolic link of this name (the real directory is <name>.target);
+	// the model is unaffected: the project directory's base name is the link's own name
+	Link bool `json:"link,omitempty"`
 }
 
 type c17WRef struct {
@@ -95,7 +98,7 @@ func (a c17Args) wire() c17Wire {
 	if w.OS == nil {
 		w.OS = []string{}
 	}
-	d0 := c17WDir{Name: a.Dir, Files: []c17WFile{}}
+	d0 := c17WDir{Name: a.Dir, Files: []c17WFile{}, Link: a.DirLink}
 	for fi, docs := range a.Files {
 		n := fmt.Sprintf("compose%d.yaml", fi)
 		d0.Files = append(d0.Files, c17WFile{Name: n, Docs: docs})
@@ -110,7 +113,7 @@ func (a c17Args) wire() c17Wire {
 	if alt == "" {
 		alt = "alt"
 	}
-	d1 := c17WDir{Name: alt, Files: []c17WFile{}}
+	d1 := c17WDir{Name: alt, Files: []c17WFile{}, Link: a.AltLink}
 	if a.AltDot != nil {
 		e := c17WEnvOf(*a.AltDot)
 		d1.DotEnv = &e
@@ -180,14 +183,50 @@ func realC17Load(raw json.RawMessage) any {
 		paths[i] = filepath.Join(base, d.Name)
 		return paths[i], true
 	}
-	for i, d := range a.Dirs {
+	made := make([]bool, len(a.Dirs))
+	var mk func(i int) bool
+	mk = func(i int) bool {
+		if made[i] {
+			return true
+		}
 		p, ok := pathOf(i, 0)
 		if !ok {
+			return false
+		}
+		d := a.Dirs[i]
+		if d.Parent != nil && !mk(*d.Parent) {
+			return false
+		}
+		if d.Link {
+			if err := os.MkdirAll(filepath.Dir(p), 0o755); err != nil {
+				return false
+			}
+			if err := os.MkdirAll(p+".target", 0o755); err != nil {
+				return false
+			}
+			if err := os.Symlink(filepath.Base(p)+".target", p); err != nil {
+				return false
+			}
+		} else if err := os.MkdirAll(p, 0o755); err != nil {
+			return false
+		}
+		made[i] = filepath.Base(p) == d.Name
+		return made[i]
+	}
+	for i := range a.Dirs {
+		if !mk(i) {
 			return c17Bad("directory %d not usable", i)
 		}
-		if err := os.MkdirAll(p, 0o755); err != nil || filepath.Base(p) != d.Name {
-			return c17Bad("directory name not usable")
+	}
+	// the process directory must not be reached through a link (os.Getwd would report the physical path)
+	for i, n := a.Cwd, 0; i >= 0 && i < len(a.Dirs) && n <= len(a.Dirs); n++ {
+		if a.Dirs[i].Link {
+			return c17Bad("process directory under a symbolic link")
 		}
+		if a.Dirs[i].Parent == nil {
+			break
+		}
+		i = *a.Dirs[i].Parent
 	}
 	for i, d := range a.Dirs {
 		for _, f := range d.Files {
